@@ -136,7 +136,7 @@ func replayHO(idx int, c *MCase, mode string, out *[]Mismatch) {
 						defer close(ch)
 						guard(i, emit)
 					}()
-					deadline := time.Now().Add(2 * time.Second)
+					deadline := time.Now().Add(6 * time.Second)
 					for time.Now().Before(deadline) {
 						ok := true
 						for x := range ctls {
@@ -167,8 +167,8 @@ func replayHO(idx int, c *MCase, mode string, out *[]Mismatch) {
 		}
 		// C14: a notification that was waiting inside the pipeline returns as soon as what it waited for is over or cut
 		if st.Exp.Blk == 0 {
-			if !returned(2 * time.Second) {
-				add(i, "blocked", "the outer notification that was waiting inside the pipeline for its inner source did not return within 2s after this step")
+			if !returned(6 * time.Second) {
+				add(i, "blocked", "the outer notification that was waiting inside the pipeline for its inner source did not return within 6s after this step")
 				inflight = nil
 			}
 		} else if inflight != nil {
@@ -233,7 +233,7 @@ func replayHO(idx int, c *MCase, mode string, out *[]Mismatch) {
 		}()
 	}
 	// a case that ends with the outer notification still waiting (its inner source never ended): the final Unsubscribe above must release it
-	if !returned(2 * time.Second) {
-		add(len(c.Steps)-1, "blocked", "the outer notification that was waiting inside the pipeline did not return within 2s after the final Unsubscribe")
+	if !returned(6 * time.Second) {
+		add(len(c.Steps)-1, "blocked", "the outer notification that was waiting inside the pipeline did not return within 6s after the final Unsubscribe")
 	}
 }
